@@ -32,8 +32,8 @@ class V:
 
 
 class Num(V):
-    def __init__(self, e):
-        self.e = e
+    def __init__(self, e, given=False):
+        self.e, self.given = e, given  # given: an argument the caller supplied (not None)
 
 
 class Fr(V):
@@ -150,6 +150,24 @@ class Opaque(V):  # loggers etc.
     pass
 
 
+class TimeGrid(V):  # np.arange(start, end + step, step): the evaluation times
+    pass
+
+
+class TimeList(V):  # a python list with one entry per evaluation time
+    def __init__(self, item):
+        self.item = item
+
+
+class DemandList(V):  # junction.demand_timeseries_list
+    def __init__(self, idx):
+        self.idx = idx
+
+
+class CategoryParam(V):  # the `category` argument, passed through
+    pass
+
+
 class Mask(V):  # a boolean DataFrame / Series: `table != 0`
     def __init__(self, idx, c):
         self.idx, self.c = idx, c
@@ -170,7 +188,8 @@ def camel(s):
 KNOWN_VARS = (
     "demand head pressure elevation flowrate headStart headEnd expectedDemand level maxLevel minLevel diameter volCurve "
     "length power valveType energyPrice energyPattern efficiency energy curveA curveB curveC pop arg1 arg2 "
-    "averageExpectedDemand Pstar R globalEfficiency globalPrice globalPattern demandCharge reportTimestep pi"
+    "averageExpectedDemand Pstar R globalEfficiency globalPrice globalPattern demandCharge reportTimestep pi "
+    "ts patternStart demandMultiplier"
 ).split()
 KNOWN_IDX = "junctions reservoirs pumps tanks pipes headPumps powerPumps valves".split()
 TABLES = {"tank_cost": "tankCost", "pipe_cost": "pipeCost", "prv_cost": "prvCost", "pump_cost": "pumpCost", "pipe_ghg": "pipeGhg"}
@@ -309,6 +328,14 @@ class Interp:
                 f = s.value.func
                 if isinstance(f, ast.Attribute) and isinstance(f.value, ast.Name) and f.value.id in ("logger", "logging", "warnings"):
                     return
+                if isinstance(f, ast.Attribute) and f.attr == "append" and isinstance(f.value, ast.Name) and len(s.value.args) == 1:
+                    cur = st["vars"].get(f.value.id)
+                    item = self.ev(s.value.args[0], st["vars"], st["mod"])
+                    if st.get("timeloop") and isinstance(item, (Num, Fr)) and (
+                            (isinstance(cur, Py) and cur.v == []) or isinstance(cur, TimeList)):
+                        st["vars"][f.value.id] = TimeList(item)  # one entry per evaluation time
+                        return
+                    raise BrokenTie("unsupported list.append: " + ast.unparse(s)[:80])
             self.ev(s.value, st["vars"], st["mod"])
             return
         if isinstance(s, ast.Assert):
@@ -366,6 +393,8 @@ class Interp:
             k = self.ev(key, vars_, st["mod"])
             if not isinstance(k, ElemName):
                 raise BrokenTie("column assignment with a key that is not the loop's element name: " + ast.unparse(tgt))
+            if isinstance(val, TimeList):
+                val = val.item
             e = expr_of(val, "in " + ast.unparse(tgt))
             if isinstance(val, Fr) and val.idx != k.idx:
                 raise BrokenTie("column of %s assigned under a name of %s" % (val.idx, k.idx))
@@ -436,6 +465,8 @@ class Interp:
             return ("isNone", v.e[1])
         if isinstance(v, VolCurve) and v.stage == "curve":
             return ("isNone", "volCurve")
+        if isinstance(v, Num) and v.given:
+            return False
         if isinstance(v, Num) and v.e[0] == "gvar":
             return ("gIsNone", v.e[1])
         if isinstance(v, (Lookup, Tab, Net, Rel)) or isinstance(v, (Fr, Num)):
@@ -531,6 +562,16 @@ class Interp:
         if s.orelse:
             raise BrokenTie("for/else")
         it = self.ev(s.iter, st["vars"], st["mod"])
+        if isinstance(it, TimeGrid):  # executed once, at the generic evaluation time `ts`
+            if st.get("timeloop"):
+                raise BrokenTie("nested loops over times")
+            self.assign(s.target, Num(("var", "ts"), given=True), st)
+            st["timeloop"] = True
+            try:
+                self.block(s.body, st)
+            finally:
+                st["timeloop"] = False
+            return
         if isinstance(it, Iter):
             idx = it.idx
             bind = Tup([ElemName(idx), Elem(idx)]) if it.pair else Elem(idx)
@@ -569,9 +610,27 @@ class Interp:
                 st["vars"][k] = Num(("add", v0.e, ("sum", idx, e[2])))
                 continue
             raise BrokenTie("scalar %s is changed in a loop in a way that is not `acc = acc + term`" % k)
-        for k, v in st["vars"].items():
+        # scalars that were only READ inside the loop: put their value back
+        unchanged = {k: v0.e for k, v0 in before.items() if isinstance(v0, Num) and st["vars"].get(k) is v0}
+
+        def subst(e):
+            if not isinstance(e, tuple):
+                return e
+            if e and e[0] == "prev" and e[1] in unchanged:
+                return unchanged[e[1]]
+            return tuple(subst(x) for x in e)
+
+        for k, v in list(st["vars"].items()):
             if isinstance(v, (Num, Fr, DictCols)) and v.e is not None and mentions_prev(v.e):
-                raise BrokenTie("value of %s depends on an accumulator inside the loop" % k)
+                v2 = subst(v.e)
+                if mentions_prev(v2):
+                    raise BrokenTie("value of %s depends on an accumulator inside the loop" % k)
+                if isinstance(v, Num):
+                    st["vars"][k] = Num(v2, v.given)
+                elif isinstance(v, Fr):
+                    st["vars"][k] = Fr(v.idx, v2, v.attr)
+                else:
+                    st["vars"][k] = DictCols(v.idx, v2)
         # loop-local per-element values stay usable as columns (Fr over idx)
 
     # ---------------------------------------------------------------- expressions
@@ -688,9 +747,13 @@ class Interp:
                 return NodeRef(v.idx, "End")
             if a == "vol_curve":
                 return VolCurve(v.idx, "curve")
+            if a == "demand_timeseries_list":
+                return DemandList(v.idx)
             if a in ("get_volume", "get_head_curve_coefficients"):
                 return Py(("elemmethod", v.idx, a))
             return Fr(v.idx, ("var", camel(a)), attr=True)
+        if isinstance(v, DemandList) and a == "at":
+            return Py(("demandsat", v.idx))
         if isinstance(v, VolCurve) and v.stage == "curve" and a == "points":
             return VolCurve(v.idx, "points")
         if isinstance(v, (Tab, Fr, DictCols, EmptyFrame)):
@@ -768,6 +831,26 @@ class Interp:
         if not (isinstance(f, Py) and isinstance(f.v, tuple) and f.v):
             raise BrokenTie("call of %s: %s" % (type(f).__name__, src))
         kind = f.v[0]
+        if kind == "demandsat":
+            # Demands.at(time, category=None, multiplier=1)
+            names = ["time", "category", "multiplier"]
+            b = dict(zip(names, args))
+            for k_, v_ in kw.items():
+                if k_ not in names or k_ in b:
+                    raise BrokenTie("Demands.at: bad argument %s" % k_)
+                b[k_] = v_
+            if "time" not in b:
+                raise BrokenTie("Demands.at without a time")
+            cat = b.get("category", Py(None))
+            if isinstance(cat, CategoryParam):
+                fname = "demandsAt"
+            elif isinstance(cat, Py) and cat.v is None:
+                fname = "demandsAtAll"
+            else:
+                raise BrokenTie("Demands.at with a category that is not the function's own argument: " + src)
+            t_e = expr_of(b["time"], "time of Demands.at")
+            m_e = expr_of(b.get("multiplier", Py(1)), "multiplier of Demands.at")
+            return Fr(f.v[1], ("fn2", fname, t_e, m_e))
         if kind == "func":
             return self.call_function(f.v[1], f.v[2], args, kw)
         if kind == "netmethod":
@@ -822,6 +905,8 @@ class Interp:
                 return lift1(args[0], lambda x: ("abs", x), "abs")
             if full in ("np.exp", "np.log", "math.exp", "math.log") and len(args) == 1:
                 return lift1(args[0], lambda x: ("fn1", fn, x), fn)
+            if full == "np.arange" and len(args) == 3 and all(isinstance(a, (Num, Py)) for a in args):
+                return TimeGrid()
             if full == "np.argmin" and len(args) == 1 and isinstance(args[0], LDiff) and args[0].absd:
                 return LNearest(args[0].name, args[0].x)
             if full == "np.array" and len(args) == 1 and isinstance(args[0], VolCurve) and args[0].stage == "points":
@@ -867,6 +952,9 @@ def specs():
     J = "junctions"
     return [
         # (lean name, module, function, arguments)
+        ("expected_demand", "hydraulic", "expected_demand",
+         dict(wn=Net(), start_time=Num(("gvar", "startTime"), given=True), end_time=Num(("gvar", "endTime"), given=True),
+              timestep=Num(("gvar", "timestep"), given=True), category=CategoryParam())),
         ("water_service_availability", "hydraulic", "water_service_availability",
          dict(expected_demand=Fr("cols", ("var", "expectedDemand")), demand=Fr("cols", ("var", "demand")))),
         ("todini_index", "hydraulic", "todini_index",
